@@ -5,7 +5,7 @@ use ntex_codec::{Decoder, Encoder};
 
 use crate::error::{DecodeError, EncodeError};
 use crate::types::{FixedHeader, QoS, packet_type};
-use crate::utils::decode_variable_length;
+use crate::utils::{decode_variable_length, truncate_pages};
 
 use super::{Decoded, Encoded, Publish, decode, encode};
 
@@ -203,6 +203,18 @@ impl Encoder for Codec {
     type Error = EncodeError;
 
     fn encodev(&self, item: Self::Item, dst: &mut BytePages) -> Result<(), EncodeError> {
+        // failed encode must not leave partially written packet in the buffer
+        let len = dst.len();
+        let result = self.encode_item(item, dst);
+        if result.is_err() {
+            truncate_pages(dst, len);
+        }
+        result
+    }
+}
+
+impl Codec {
+    fn encode_item(&self, item: Encoded, dst: &mut BytePages) -> Result<(), EncodeError> {
         match item {
             Encoded::Packet(pkt) => {
                 let content_size = encode::get_encoded_size(&pkt);
